@@ -55,7 +55,7 @@ def run(prop, tier, seed, instances, want=None, rule="", assumptions=(),
             "feasible (objective zeroed); CPLEX rows are evaluated arithmetically",
         ],
         required_stats=required, chunk=2,
-        budget_s=280 if tier == "quick" else 3000, confirm_job=confirm_job,
+        budget_s=280 if tier == "quick" else 900, confirm_job=confirm_job,
         finish=finish)
 
 
